@@ -5,7 +5,7 @@ V='/verif'
 props=[json.loads(l) for l in open(V+'/properties.jsonl')]
 C={
  "C01": dict(tech="property-based testing (rapid): type-directed expression and document generators; oracle = independent reference interpreter written from the operator documentation",
-      text="generated (document, core-fragment expression) pairs are evaluated by yq and by a reference interpreter that shares no code with yqlib; result lists must agree in order, count and value, and errors must coincide. Exploration: counts, label distribution and Unspecified share are in the evidence.",
+      text="generated (document, core-fragment expression) pairs are evaluated by yq and by a reference interpreter that shares no code with yqlib; result lists must agree in order, count and value, and errors must coincide. One case in four evaluates its document with eval-all (judged where the list of current nodes never held two nodes: eval-all pairs roots across it). Exploration: counts, label distribution and Unspecified share are in the evidence.",
       note="trusted: the reference interpreter (ref/eval.go) as a reading of the docs; zones the docs leave open are Unspecified (counted, not judged); one open known finding (read auto-vivification) is matched only when the reference evaluation read something absent", ref="DESIGN.md 6/C01, 3.3"),
  "C03": dict(tech="property-based testing (rapid): documents x derivations (sort/reverse/slice/map/filter/+/-/unique/flatten) x selections; oracle = reference delete-by-identity model",
       text="for generated `f | del(s)` / del(s1,s2) programs the reference computes V=f(doc), the identities s selects in V, and V without exactly those nodes; yq's output must equal it (value and order).",
